@@ -390,8 +390,8 @@ pub fn run(ctx: &Ctx) -> Report {
         }
         return rep;
     }
-    let n_states = ctx.budget(300, 12_000);
-    let variants = ctx.budget(3, 40);
+    let n_states = ctx.budget(3_000, 60_000);
+    let variants = ctx.budget(10, 100);
     let seed = ctx.seed;
     let mut rep = parallel(ctx.threads, |shard, n| {
         let mut rep = Report::new();
